@@ -137,7 +137,9 @@ def create_random_binary_mask(features):
 def searchsorted(bin_locations, inputs, eps=1e-6):
     bin_locations = bin_locations.clone()
     bin_locations[..., -1] += eps
-    return torch.sum(inputs[..., None] >= bin_locations, dim=-1) - 1
+    bin_idx = torch.sum(inputs[..., None] >= bin_locations, dim=-1) - 1
+    # eps is absorbed by large float32 knots; the last knot still belongs to the last bin.
+    return torch.clamp(bin_idx, max=bin_locations.shape[-1] - 2)
 
 
 def cbrt(x):
